@@ -327,19 +327,40 @@ class RunNormalizer(CallbackBase):
             doc = patch(doc)
 
         # If there are any cached references to external data, emit StreamResources and StreamDatums now
-        for datum_id, data_key, desc_uid, seq_num in self._ext_ref_cache:
-            if datum_doc := self._datum_cache.pop(datum_id, None):
-                sres_doc, sdat_doc = self._convert_datum_to_stream_datum(datum_doc, data_key, desc_uid, seq_num)
-                if (sres_doc is not None) and (sres_doc["uid"] not in self._emitted):
-                    self.emit(DocumentNames.stream_resource, sres_doc)
-                    self._emitted.add(sres_doc["uid"])
-                self.emit(DocumentNames.stream_datum, sdat_doc)
-            else:
-                raise RuntimeError(
-                    f"Cannot emit StreamDatum for {data_key} because the corresponding Datum document is missing."
-                )
+        self._emit_cached_references(final=True)
 
         self.emit(DocumentNames.stop, doc)
+
+    def _reference_group(self, desc_uid: str, data_key: str):
+        # Datums of one data_key in one stream are converted in the order of their Events (see below)
+        return (self._desc_name_by_uid.get(desc_uid, desc_uid), data_key)
+
+    def _emit_cached_references(self, final: bool = False):
+        """Convert the cached references whose Datum documents have arrived, in the order of their Events.
+
+        The frame counter of `_convert_datum_to_stream_datum` depends on the order of conversion, so a reference
+        that is still waiting for its Datum holds back the later references of the same stream and data_key.
+        """
+        waiting = set()
+        remaining = []
+        for ref in self._ext_ref_cache:
+            datum_id, data_key, desc_uid, seq_num = ref
+            group = self._reference_group(desc_uid, data_key)
+            datum_doc = None if group in waiting else self._datum_cache.pop(datum_id, None)
+            if datum_doc is None:
+                if final and group not in waiting:
+                    raise RuntimeError(
+                        f"Cannot emit StreamDatum for {data_key} because the corresponding Datum document is missing."
+                    )
+                waiting.add(group)
+                remaining.append(ref)
+                continue
+            sres_doc, sdat_doc = self._convert_datum_to_stream_datum(datum_doc, data_key, desc_uid, seq_num)
+            if (sres_doc is not None) and (sres_doc["uid"] not in self._emitted):
+                self.emit(DocumentNames.stream_resource, sres_doc)
+                self._emitted.add(sres_doc["uid"])
+            self.emit(DocumentNames.stream_datum, sdat_doc)
+        self._ext_ref_cache = remaining
 
     def descriptor(self, doc: EventDescriptor):
         doc = copy.deepcopy(doc)
@@ -426,7 +447,10 @@ class RunNormalizer(CallbackBase):
         for data_key, datum_id in doc["data"].items():
             if data_key not in set(self._ext_keys).difference(event_keys):
                 continue  # Skip internal data_keys
-            if datum_doc := self._datum_cache.pop(datum_id, None):
+            # (an earlier Event of this stream still waiting for the Datum of this data_key goes first)
+            group = self._reference_group(doc["descriptor"], data_key)
+            held_back = any(self._reference_group(r[2], r[1]) == group for r in self._ext_ref_cache)
+            if not held_back and (datum_doc := self._datum_cache.pop(datum_id, None)):
                 sres_doc, sdat_doc = self._convert_datum_to_stream_datum(
                     datum_doc, data_key, desc_uid=doc["descriptor"], seq_num=doc["seq_num"]
                 )
@@ -468,6 +492,9 @@ class RunNormalizer(CallbackBase):
             doc = patch(doc)
 
         self._datum_cache[doc["datum_id"]] = doc
+        if self._ext_ref_cache:
+            # an Event that arrived before this Datum may be waiting for it
+            self._emit_cached_references()
 
     def datum_page(self, doc: DatumPage):
         for _doc in unpack_datum_page(doc):
